@@ -344,8 +344,8 @@ class C15(Property):
                 'gate-rejected events) parsed by pull/push parsers, compared with the state machine; (b) corpus / generated '
                 'documents with one to three byte-level or attribute-level faults, parsed by the pull parser and by the push '
                 'parser under a random chunking, with a watchdog; observed: outcome class, number of callbacks before it, '
-                'delivered events that a history-free validator rejects; non-trivial = a mutated document that is not '
-                'accepted; distinct by content')
+                'delivered events that a history-free validator rejects; non-trivial = a document that is not '
+                'accepted by one of the parsers; distinct by content')
 
     def generate(self, rng, tier):
         n_items = 60 if tier == 'quick' else 1500
@@ -444,8 +444,14 @@ class C15(Property):
             for i in range(len(case['faults'])):
                 yield dict(case, faults=case['faults'][:i] + case['faults'][i + 1:])
 
-    def nontrivial(self, case):
-        return json.dumps(case, sort_keys=True)
+    def nontrivial_obs(self, case, obs):
+        if not isinstance(obs, dict):
+            return None
+        if case['kind'] == 'items':
+            rejected = obs.get('err') is not None
+        else:
+            rejected = obs['pull']['outcome'] != 'ok' or obs['push']['outcome'] != 'ok'
+        return json.dumps(case, sort_keys=True) if rejected else None
 
     def sample_view(self, case):
         if case['kind'] == 'items':
